@@ -230,3 +230,142 @@ package curve
 //@   ensures result != nil && fresh(result)
 // a canonical scalar: 32 big-endian bytes, so 0 <= result < 2^256 (callers encrypt it: far inside Paillier's plaintext range)
 //@   ensures natval(result) >= 0 && natval(result) < pow2(256)
+
+// ---- the secp256k1 implementation refines the interface contracts above (closed world: it is the only one). Checked
+// here: no panic under the interface's preconditions (the casts cannot fail: the only Scalar/Point types are these),
+// and the structural parts of the postconditions (in-place operations return the receiver, constructors return fresh
+// non-nil values of the secp256k1 types). The value-level equations (scval/ptval) are the definition of the abstraction
+// over the decred library (A-LIB-EC) and stay on the interface.
+//@ func (Secp256k1).NewPoint
+//@   nopanic[C05]
+//@   modifies nothing
+//@   allocates
+//@   ensures result != nil && fresh(result) && typeis(result, *Secp256k1Point)
+//@ func (Secp256k1).NewBasePoint
+//@   nopanic[C05]
+//@   modifies nothing
+//@   allocates
+//@   ensures result != nil && fresh(result) && typeis(result, *Secp256k1Point)
+//@ func (Secp256k1).NewScalar
+//@   nopanic[C05]
+//@   modifies nothing
+//@   allocates
+//@   ensures result != nil && fresh(result) && typeis(result, *Secp256k1Scalar)
+//@ func (Secp256k1).Order
+//@   nopanic[C05]
+//@   pure
+//@ func secp256k1CastScalar
+//@   nopanic[C05]
+//@   requires generic != nil
+//@   modifies nothing
+//@   allocates
+//@   ensures result != nil && iface(result) == generic
+//@ func secp256k1CastPoint
+//@   nopanic[C05]
+//@   requires generic != nil
+//@   modifies nothing
+//@   allocates
+//@   ensures result != nil && iface(result) == generic
+//@ func (*Secp256k1Scalar).Add
+//@   nopanic[C05]
+//@   requires s != nil && that != nil
+//@   modifies nothing
+//@   allocates
+//@   ensures result == iface(s)
+//@ func (*Secp256k1Scalar).Sub
+//@   nopanic[C05]
+//@   requires s != nil && that != nil
+//@   modifies nothing
+//@   allocates
+//@   ensures result == iface(s)
+//@ func (*Secp256k1Scalar).Mul
+//@   nopanic[C05]
+//@   requires s != nil && that != nil
+//@   modifies nothing
+//@   allocates
+//@   ensures result == iface(s)
+//@ func (*Secp256k1Scalar).Set
+//@   nopanic[C05]
+//@   requires s != nil && that != nil
+//@   modifies nothing
+//@   allocates
+//@   ensures result == iface(s)
+//@ func (*Secp256k1Scalar).SetNat
+//@   nopanic[C05]
+//@   requires s != nil && x != nil
+//@   modifies nothing
+//@   allocates
+//@   ensures result == iface(s)
+//@ func (*Secp256k1Scalar).Invert
+//@   nopanic[C05]
+//@   requires s != nil
+//@   modifies nothing
+//@   ensures result == iface(s)
+//@ func (*Secp256k1Scalar).Negate
+//@   nopanic[C05]
+//@   requires s != nil
+//@   modifies nothing
+//@   ensures result == iface(s)
+//@ func (*Secp256k1Scalar).IsOverHalfOrder
+//@   nopanic[C05]
+//@   requires s != nil
+//@   modifies nothing
+//@ func (*Secp256k1Scalar).IsZero
+//@   nopanic[C05]
+//@   requires s != nil
+//@   modifies nothing
+//@ func (*Secp256k1Scalar).Equal
+//@   nopanic[C05]
+//@   requires s != nil && that != nil
+//@   modifies nothing
+//@   allocates
+//@ func (*Secp256k1Scalar).Act
+//@   nopanic[C05]
+//@   requires s != nil && that != nil
+//@   modifies nothing
+//@   allocates
+//@   ensures result != nil && fresh(result) && typeis(result, *Secp256k1Point)
+//@ func (*Secp256k1Scalar).ActOnBase
+//@   nopanic[C05]
+//@   requires s != nil
+//@   modifies nothing
+//@   allocates
+//@   ensures result != nil && fresh(result) && typeis(result, *Secp256k1Point)
+//@ func (*Secp256k1Point).Add
+//@   nopanic[C05]
+//@   requires p != nil && that != nil
+//@   modifies nothing
+//@   allocates
+//@   ensures result != nil && fresh(result) && typeis(result, *Secp256k1Point)
+//@ func (*Secp256k1Point).Sub
+//@   nopanic[C05]
+//@   requires p != nil && that != nil
+//@   modifies nothing
+//@   allocates
+//@   ensures result != nil && fresh(result) && typeis(result, *Secp256k1Point)
+//@ func (*Secp256k1Point).Set
+//@   nopanic[C05]
+//@   requires p != nil && that != nil
+//@   modifies nothing
+//@   allocates
+//@   ensures result == iface(p)
+//@ func (*Secp256k1Point).Negate
+//@   nopanic[C05]
+//@   requires p != nil
+//@   modifies nothing
+//@   allocates
+//@   ensures result != nil && fresh(result) && typeis(result, *Secp256k1Point)
+//@ func (*Secp256k1Point).Equal
+//@   nopanic[C05]
+//@   requires p != nil && that != nil
+//@   modifies nothing
+//@   allocates
+//@ func (*Secp256k1Point).IsIdentity
+//@   nopanic[C05]
+//@   modifies nothing
+//@ func (*Secp256k1Point).XScalar
+//@   nopanic[C05]
+//@   requires p != nil
+//@   modifies nothing
+//@   allocates
+//@   ensures result != nil && fresh(result) && typeis(result, *Secp256k1Scalar)
